@@ -19,7 +19,7 @@ from ..runner import Stats, reset_library_state
 PROP = "C01"
 BUDGET = {"quick": 420, "thorough": 3600}
 META = {
-    "rule": "roots: arrays of all five symmetries (abelian and fermionic; dynamic class, static class, symmetry object) with n<=3 indices, every direction pattern, "
+    "rule": "roots: arrays of all five symmetries (abelian and fermionic; dynamic class, static class, symmetry object) with n<=3 indices (plus 4-index arrays over the pair menu, the smallest whose fused blocks can have holes), every direction pattern, "
     "total charges, sparsity patterns, pending-sign tables and labels, plus block vectors; transitions: the whole operation catalogue (mc/catalogue.py: structure, "
     "fuse/unfuse/reshape, contraction with derived partners in both modes, einsum/trace, arithmetic, reductions, phase operations, qr/svd/svd_truncated/eigh/solve); "
     "every member of a returned tuple is a successor; states deduplicated by structure key (class, symmetry, charge, index tables incl. sub-index info, sectors with block "
@@ -46,7 +46,7 @@ def family(op):
 
 def roots(ctx, sym, ferm, cls):
     out = []
-    plans = [(0, "m3", "all+empty", "all"), (1, "core", "all", "all"), (2, "m3", "all", "le1"), (3, "m2", "two", "probe")]
+    plans = [(0, "m3", "all+empty", "all"), (1, "core", "all", "all"), (2, "m3", "all", "le1"), (3, "m2", "two", "probe"), (4, "m1", "one", "probe")]
     if cls != "dyn":
         plans = plans[:3] if cls == "static" else plans[1:2]
     for n, menu, charges, sp in plans:
